@@ -1,2 +1,110 @@
-(* C12 - closing theorems only. *)
-From Slim Require Import Base Keys Model.
+(* C12 - SlimIndex plus a key-verifying reader behaves as an exact map.
+   Closing theorems only; model in theories/Index.v, proofs in
+   theories/IndexProofs.v (dense index, Get) and theories/IndexRangeProofs.v
+   (sparse index, RangeGet).
+
+   A record table [rs] is a list of (key, offset, value); [index_build rs] is
+   index.NewSlimIndex: a SlimTrie with default options (values de-duplicated, no
+   prefixes) over the keys and the I64-encoded offsets.  [table_reader rs] is a
+   DataReader that honours the documented contract: it returns the record iff
+   one of the records stored at the requested offset has exactly the requested
+   key.  [index_get]/[index_rangeget] are SlimIndex.Get/RangeGet: the trie
+   lookup, the int64 type assertion (a nil value is an explicit panic outcome),
+   the reader.  [lookup rs] is the plain map from keys to record values.
+
+   Hypotheses are boolean checks on the table: offsets are int64 values, and
+   strictly increasing (dense) resp. non-decreasing, i.e. adjacent keys share
+   the offset of their block (sparse; any block size).  Ascending keys are not
+   a hypothesis: they follow from [index_build rs = Ok T].  The conclusions hold
+   for EVERY query string.  The proofs need less than the property grants:
+   Get is exact as soon as adjacent offsets differ, RangeGet for any offsets. *)
+From Coq Require Import String.
+From Slim Require Import Base Keys Model Index IndexProofs IndexRangeProofs.
+From Slim Require Encoders.
+From SlimGen Require Gen_IntCodecs.
+
+Theorem C12_get_exact_with_one_offset_per_key :
+  forall (rs : list rcd) (T : trie) (q : key),
+    offs_in_range rs = true -> offs_increasing rs = true ->
+    index_build rs = Ok T ->
+    index_get T (table_reader rs) q = Ok (lookup rs q).
+Proof. exact index_get_exact_increasing. Qed.
+Print Assumptions C12_get_exact_with_one_offset_per_key.
+
+Theorem C12_rangeget_exact_with_block_offsets :
+  forall (rs : list rcd) (T : trie) (q : key),
+    offs_in_range rs = true -> offs_nondecreasing rs = true ->
+    index_build rs = Ok T ->
+    index_rangeget T (table_reader rs) q = Ok (lookup rs q).
+Proof. exact index_rangeget_exact_blocks. Qed.
+Print Assumptions C12_rangeget_exact_with_block_offsets.
+
+(* the general forms *)
+Theorem C12_get_exact_adjacent_offsets_differ :
+  forall (rs : list rcd) (T : trie) (q : key),
+    offs_in_range rs = true -> offs_adjacent_distinct rs = true ->
+    index_build rs = Ok T ->
+    index_get T (table_reader rs) q = Ok (lookup rs q).
+Proof. exact index_get_exact. Qed.
+Print Assumptions C12_get_exact_adjacent_offsets_differ.
+
+Theorem C12_rangeget_exact_any_offsets :
+  forall (rs : list rcd) (T : trie) (q : key),
+    offs_in_range rs = true -> index_build rs = Ok T ->
+    index_rangeget T (table_reader rs) q = Ok (lookup rs q).
+Proof. exact index_rangeget_exact. Qed.
+Print Assumptions C12_rangeget_exact_any_offsets.
+
+(* the reference map is a map: it returns the value of the record with that key, if any *)
+Theorem C12_lookup_is_the_record_map :
+  forall (rs : list rcd) (T : trie), index_build rs = Ok T ->
+    (forall r, In r rs -> lookup rs (r_key r) = Some (r_val r)) /\
+    (forall q, (forall r, In r rs -> r_key r <> q) -> lookup rs q = None).
+Proof.
+  intros rs T Hb. split.
+  - intros r Hin. exact (proj2 (reader_hit rs r (sorted_of_build rs T Hb) Hin)).
+  - intros q Hno. exact (proj2 (reader_miss rs 0%Z q Hno)).
+Qed.
+Print Assumptions C12_lookup_is_the_record_map.
+
+(* the offset codec of the model is encode.I64 as read from the source *)
+Example C12_i64_codec :
+  match Encoders.find_src_codec "I64"%string Gen_IntCodecs.g_int_codecs with
+  | Some g => Encoders.codec_of_src g = c_i64
+  | None => False
+  end.
+Proof. vm_compute. reflexivity. Qed.
+
+(* non-vacuity: the README table of index/example_range_test.go, as a sparse
+   index (blocks at offsets 0 and 31) and as a dense one *)
+Definition ex_block : list rcd :=
+  [ {| r_key := ["065"; "097"]%byte; r_off := 0; r_val := ["049"]%byte |};
+    {| r_key := ["065"; "103"]%byte; r_off := 0; r_val := ["050"]%byte |};
+    {| r_key := ["065"; "108"]%byte; r_off := 0; r_val := ["051"]%byte |};
+    {| r_key := ["065"; "108"; "098"]%byte; r_off := 0; r_val := []%byte |};
+    {| r_key := ["065"; "108"; "101"]%byte; r_off := 31; r_val := ["053"]%byte |};
+    {| r_key := ["065"; "108"; "105"]%byte; r_off := 31; r_val := ["056"]%byte |} ].
+Example C12_block_example :
+  offs_in_range ex_block = true /\ offs_nondecreasing ex_block = true /\
+  exists T, index_build ex_block = Ok T /\
+            index_rangeget T (table_reader ex_block) ["065"; "108"]%byte = Ok (Some ["051"]%byte) /\
+            index_rangeget T (table_reader ex_block) ["065"; "108"; "098"]%byte = Ok (Some []) /\
+            index_rangeget T (table_reader ex_block) ["065"; "108"; "099"]%byte = Ok None /\
+            (* Get is not exact on a sparse index: "Ag" was de-duplicated away *)
+            index_get T (table_reader ex_block) ["065"; "103"]%byte = Ok None.
+Proof. split; [reflexivity|]. split; [reflexivity|]. eexists. split; [vm_compute; reflexivity|]. vm_compute. repeat split. Qed.
+
+Definition ex_dense : list rcd :=
+  [ {| r_key := ["065"; "097"]%byte; r_off := (-9223372036854775808); r_val := ["049"]%byte |};
+    {| r_key := ["065"; "103"]%byte; r_off := (-1); r_val := ["050"]%byte |};
+    {| r_key := ["065"; "108"]%byte; r_off := 17; r_val := ["051"]%byte |};
+    {| r_key := ["065"; "108"; "098"]%byte; r_off := 9223372036854775807; r_val := ["052"]%byte |} ].
+Example C12_dense_example :
+  offs_in_range ex_dense = true /\ offs_increasing ex_dense = true /\
+  exists T, index_build ex_dense = Ok T /\
+            index_get T (table_reader ex_dense) ["065"; "097"]%byte = Ok (Some ["049"]%byte) /\
+            index_get T (table_reader ex_dense) ["065"; "108"; "098"]%byte = Ok (Some ["052"]%byte) /\
+            (* "Qa" reaches the leaf of "Aa" in the trie; the reader rejects it *)
+            get T ["081"; "097"]%byte <> Ok NotFound /\
+            index_get T (table_reader ex_dense) ["081"; "097"]%byte = Ok None.
+Proof. split; [reflexivity|]. split; [reflexivity|]. eexists. split; [vm_compute; reflexivity|]. vm_compute. repeat split. intros H; discriminate H. Qed.
